@@ -23,7 +23,7 @@ def main():
     os.makedirs(os.path.join(work, "scratch"))
     exe = lib.build_driver("c08_ossps")
     good = {}
-    for mode, args in (("exact", [12]), ("runs", [2, 0])):
+    for mode, args in (("exact", [40]), ("runs", [4, 0])):
         p = os.path.join(work, mode + ".ndjson")
         lib.run_driver(exe, [mode, p, os.path.join(work, "scratch")] + args, env={"VERIF_SEED": "7"})
         ok, r, at = lib.validate_trace("Trace_OSSPS", p, heap="3g")
@@ -90,12 +90,67 @@ def main():
         recs[j]["b2"][k] = ub + 1
         return j
     cases.append(("runs", "iterate one ulp above the upper bound", above))
+    # ---- the sections beyond the property's quantifier
+    def in_cfg(recs, pred, linepred, n=0):
+        """index of the n-th line satisfying linepred under a Config satisfying pred"""
+        cfg, hits = None, []
+        for i, r in enumerate(recs):
+            if r["e"] == "Config":
+                cfg = r
+            elif cfg is not None and pred(cfg) and linepred(r):
+                hits.append(i)
+        return hits[n]
+
+    def upd_off(recs):          # "write update image": the file content off by 40 units
+        i = in_cfg(recs, lambda c: c["writeUpdate"], lambda r: r["e"] == "Step" and "upd" in r, 1)
+        recs[i]["upd"][3] += 40
+        return i
+    def upd_exact(recs):
+        i = in_cfg(recs, lambda c: c["writeUpdate"], lambda r: r["e"] == "Step" and "upd" in r, 0)
+        recs[i]["upd"][2] += 1
+        return i
+    def refuse_accepted(recs):  # a configuration that must be refused is accepted by set_up
+        i = in_cfg(recs, lambda c: True, lambda r: r["e"] == "Run" and r["kind"] == "refuse", 0)
+        recs[i + 1]["ok"] = True
+        return i + 1
+    def pos_kept_zero(recs):    # enforce initial positivity: a zero of the start image is still zero after set_up
+        i = in_cfg(recs, lambda c: c["enforcePos"], lambda r: r["e"] == "Run" and r["kind"] == "fresh", 0)
+        z = recs[i]["initBits"].index(0)
+        recs[i + 1]["tgtBits"][z] = 0
+        return i + 1
+    def denfile_differs(recs):  # the run with the denominator read from file differs from the reference in one bit
+        i = in_cfg(recs, lambda c: c["denFile"] == "own", lambda r: r["e"] == "Step", 1)
+        recs[i]["b1"][0] += 1; recs[i]["b2"][0] += 1
+        return i
+    def denfile_hessian(recs):  # ... or requested the approximate Hessian although a file was given
+        i = in_cfg(recs, lambda c: c["denFile"] == "own", lambda r: r["e"] == "SetUp", 0)
+        recs[i]["nApprox"] = 1
+        return i
+    def random_subset_range(recs):
+        i = in_cfg(recs, lambda c: c["randomise"], lambda r: r["e"] == "Step", 0)
+        recs[i]["sub"] = recs[i]["nsub"]
+        return i
+    def scaled_bit(recs):       # scale clause: the scaled instance's new image is not the shifted bit pattern
+        i = nth(recs, lambda r: r["e"] == "ScaleOf", 0)
+        j = i + nth(recs[i:], step, 0)
+        k = [q for q, b in enumerate(recs[j]["b1"]) if b != 0][0]
+        recs[j]["b1"][k] += 1; recs[j]["b2"][k] += 1
+        return j
+    def logcosh_now(recs):      # log-cosh: the curvature reported for the current image changed -> neither reading explains the step
+        i = in_cfg(recs, lambda c: c["priorType"] == "logcosh", lambda r: r["e"] == "Step", 0)
+        recs[i]["curvNow"] = [v + 4000 for v in recs[i]["curvNow"]]
+        return i
+    cases += [("runs", "update file off by 40 units", upd_off), ("exact", "update file off by 2^-18", upd_exact),
+              ("runs", "refusal not given", refuse_accepted), ("runs", "zero not raised by 'enforce initial positivity'", pos_kept_zero),
+              ("runs", "denominator-file run differs in one bit", denfile_differs), ("runs", "denominator-file run asked for the Hessian", denfile_hessian),
+              ("runs", "randomised subset out of range", random_subset_range), ("exact", "scaled instance off by one bit", scaled_bit),
+              ("runs", "log-cosh curvature at the first sub-iteration changed", logcosh_now)]
     failed = 0
     for n, (mode, what, f) in enumerate(cases):
         recs = copy.deepcopy(good[mode])
         try:
             at_line = f(recs) + 1
-        except IndexError:
+        except (IndexError, ValueError):
             print("corruption %d (%s: %s): not applicable to this trace" % (n, mode, what))
             continue
         p = os.path.join(work, "corrupt-%02d.ndjson" % n)
